@@ -632,8 +632,8 @@ def run(chk):
         else:
             sessions.append({"kind": "std", "mods": c["mods"], "inputs": c["inputs"]})
         origin.append("corpus")
-    n_toy = 240 if quick else 6000
-    n_std = 70 if quick else 1200
+    n_toy = 240 if quick else 2400
+    n_std = 70 if quick else 600
     for _ in range(n_toy):
         table, ops = S.gen_toy_session(chk.rng)
         toy_cases.append((table, ops, "random"))
@@ -650,7 +650,7 @@ def run(chk):
     t1 = time.time()
     items = [(S.toy_case_coq(t, o), "\t".join(impl[n])) for n, (t, o, _) in enumerate(toy_cases)]
     bad_model = common.coq_mismatches(S.COQ_IMPORTS + ["Gen.CtxSkeleton"], items, "c06",
-                                      shard_size=max(8, -(-len(items) // common.NPROC)))
+                                      shard_size=min(60, max(8, -(-len(items) // common.NPROC))), timeout=2400)
 
     # ---- the property itself on the implementation (always)
     t2 = time.time()
